@@ -138,7 +138,10 @@ claim("C14",
       "and length, with and without a backing-file name ending the area) and QCow2.snapshots/QCow2Snapshot on a symbolic "
       "snapshot table (<= 2 entries); z3 shows every exposed attribute (backing format, feature table, data-file name, unknown "
       "extensions, backing-file name, snapshot offsets/L1 fields/id/name) denotes exactly the file range the specification "
-      "locates; witnesses replayed through the real classes. Sizes are covered in C01-C06, the Hyper-V header sequence rule in C12.",
+      "locates; witnesses replayed through the real classes. VHDX: the real VHDX.__init__/RegionTable/MetadataTable on a symbolic "
+      "container (<= 2 region entries, <= 4 metadata items at symbolic data offsets): the header with the larger sequence number "
+      "is the one exposed and size/block_size/sector_size/has_parent equal the stored items. Sizes of the other formats are "
+      "covered in C01-C06, the Hyper-V header sequence rule in C12.",
       TRUST, "symbolic execution of the metadata parsers + z3 (attributes as (codec, file range) terms)", "4.14")
 
 claim("C17",
